@@ -598,7 +598,7 @@ skip_spwsp(const uint8_t *buf, size_t buf_size,
 		return (EINVAL);
 	buf_max = (buf + buf_size);
 	/* Skip head spaces. */
-	for (; 33 > (*buf) && buf < buf_max; buf ++)
+	for (; buf < buf_max && 33 > (*buf); buf ++)
 		;
 	if (NULL != buf_ret) {
 		(*buf_ret) = buf;
